@@ -30,6 +30,11 @@ TABLE = {
             "Held on the generated multi-line cases (patterns crossing lines, anchors and word boundaries next to the terminator, branches that start where the previous match ended, empty matches, dotall, CRLF, inversion, context): reported lines = covered lines, each once, in order.",
             "Block partition is not compared. Cases where a line's only coverage is an empty match strictly inside its CRLF terminator are skipped as unsettled by the statement.",
             "DESIGN.md §3 C13"),
+    "C14": (True, "exploration",
+            "runtime monitoring: output bytes of the real Standard printer attached to every search strategy (hooked buffer capacities, scripted read fragmentation) and of the rg binary (implicit/explicit/--binary/stdin, mmap on/off, output modes) checked for NUL bytes, prefix relation with --text results, notices, binary_data coordinates; ASan build in the thorough tier",
+            "Held on the generated NUL placements (offset 0, in/after matching lines, 64 KiB boundary, beyond several buffers, last byte) under quit and convert detection for all strategies: no NUL reached the output, printed lines were a prefix of the --text results, warnings/notices appeared exactly when required.",
+            "--text output is the reference here (itself judged by C01/C03). Which lines before the first NUL are printed is strategy dependent; only prefix-ness is demanded.",
+            "DESIGN.md §3 C14"),
     "C16": (True, "fault_enumeration",
             "runtime monitoring with fault injection: scripted Sink (false / Err at event k) and scripted Read (error / Interrupted at read j) enumerated over every k and j of each case, logs checked offline for the prefix relation; rg -m N vs the grep model",
             "For each generated case every stopping point of the result stream and every read index is enumerated (fully for logs up to the tier's bound, sampled with boundaries beyond); prefix-ness, exactly-one-finish-after-stop, no-finish-after-error and error propagation held on all of them.",
